@@ -81,7 +81,7 @@ CHECKS = {
    note="redb's transaction atomicity/durability is trusted (process-crash model at transaction granularity); syscall-level crash points inside a commit are not enumerated.",
    technique="bounded-exhaustive exploration of writer batchings and stop points on the real ReDB persistence path (prefix-consistency oracle)"),
  "C20": dict(cat="model_checking", engine="wbmc-core/sched", ref="DESIGN.md §3 C20",
-   text="Schedule exploration of the real client library over its unix transport against the real serve loop and a core task that processes a request only when the explorer grants a permit: every interleaving of 'task i submits its next call' and 'server processes the next queued request' for 2-3 tasks on cloned handles with 2-3 calls each on colliding keys (explored to the end); each call must resolve with the reference's answer to that very call (typed results), never earlier; racing update() calls must not lose an acknowledged increment; the send buffer is driven on a paused clock through all sequences of set_later/publish_later/advance (each key's latest buffered value is sent once per kind, nothing else is sent), once with a server that answers at once and once with a gated server that only moves at explicit steps (values handed in while an earlier set/publish of the same key is unanswered); all unsubscribe variants (value, pattern, ls x awaited, fire-and-forget) must remove the server-side subscription and stop the events.",
+   text="Schedule exploration of the real client library over its unix transport against the real serve loop and a core task that processes a request only when the explorer grants a permit: every interleaving of 'task i submits its next call' and 'server processes the next queued request' for 2-3 tasks on cloned handles with 2-3 calls each on colliding keys (explored to the end); each call must resolve with the reference's answer to that very call (typed results), never earlier; racing update() calls must not lose an acknowledged increment; the send buffer is driven on a paused clock through all sequences of set_later/publish_later/advance (each key's latest buffered value is sent once per kind, nothing else is sent), once with a server that answers at once and once with a gated server that only moves at explicit steps (values handed in while an earlier set/publish of the same key is unanswered); all unsubscribe variants (value, pattern, ls x awaited, fire-and-forget) must remove the server-side subscription and stop the events. Typed results: for 11 value shapes (incl. null, containers holding null, empty containers) every typed and generic accessor (get, cget, pget, delete, pdelete) must return what the server holds.",
    note="One stimulus outstanding at a time (paused current-thread runtime, fixed number of yields, never parking); a real unix socket lives inside the runtime, guarded by the explorer's determinism self-check; the in-process 'local' transport is not covered.",
    technique="deviation-free exhaustive schedule exploration of the real client library against the real server session (gated core task), explicit-state de-duplication"),
  "C19": dict(cat="model_checking", engine="wbmc-orch/tree", ref="DESIGN.md §3 C19",
